@@ -2455,6 +2455,13 @@ func (c *Compiler) validateDefault(node parse.Node, t schema.Type) {
 					defVal, t.Name(), err))
 			}
 		}
+		// RFC 6020 9.11: a leaf of type empty has no value, so there is
+		// nothing a default could be; the value check above lets the
+		// empty string pass.
+		if _, isEmpty := t.(schema.Empty); isEmpty {
+			c.error(node, fmt.Errorf("Invalid default '%s' for %s: the empty type cannot have a default\n",
+				defVal, t.Name()))
+		}
 	}
 }
 
